@@ -569,3 +569,8 @@ def _val_zip(skip="1", ovl=">=", first="prev", second="next"):
 m("x7-validate-zip-skip-two", "C10", MM, _VAL_ORIG, _val_zip(skip="2"), "?")
 m("x7-validate-zip-overlap-strict", "C10", MM, _VAL_ORIG, _val_zip(ovl=">"), "?")
 m("x7-validate-zip-order-reversed", "C10", MM, _VAL_ORIG, _val_zip(first="next", second="prev"), "?")
+BM = "src/bitmap/mod.rs"
+m("x7-option-bitmap-is-some-and-shifted", "C05", BM, "        if let Some(inner) = self {\n            return inner.dirty_at(offset);\n        }\n        false",
+  "        self.as_ref().is_some_and(|inner| inner.dirty_at(offset + 1))", "R5.3.option")
+m("x7-option-bitmap-slice-at-zero", "C05", BM, "        if let Some(inner) = self {\n            return Some(inner.slice_at(offset));\n        }\n        None",
+  "        self.as_ref().map(|inner| inner.slice_at(0))", "R5.3.option")
